@@ -52,6 +52,8 @@ def draw_cfg(st):
         "p_clock_jump": [0.0, 0.05][st.choose(2, "clockjump")],
         "resched": st.choose(10, "resched") == 9,
         "w_reenter": st.choose(3, "reenter"),
+        "join_after_scope": True,
+        "orphans": True,
     }
     if world == "threads":
         cfg["n_actors"] = 2 + st.choose(4, "actors")
